@@ -412,6 +412,8 @@ pub fn drive_main(args: &[String]) -> i32 {
     let mut children: Vec<(u64, std::process::Child, u32)> = (0..workers).map(|k| (k, spawn_worker(k, 0), 0)).collect();
     let mut harness_error = false;
     let mut aborted: Vec<(u64, u64, String)> = vec![];
+    let mut hard_exits = 0u64;
+    let mut gave_up = 0u64;
     while !children.is_empty() {
         let mut next = vec![];
         for (k, mut ch, restarts) in children {
@@ -432,12 +434,14 @@ pub fn drive_main(args: &[String]) -> i32 {
                         // abort / signal: a panic in a thread-local destructor, a segfault...
                         aborted.push((k, cur.unwrap_or(0), format!("{:?}", st)));
                     }
-                    if restarts > 200 || (code != Some(3) && aborted.iter().filter(|(w, _, _)| *w == k).count() > 12) {
-                        // this worker keeps dying: enough evidence, stop restarting it (a process
-                        // abort is a C07 violation attributed to the seed, not a harness error)
-                        if aborted.iter().all(|(w, _, _)| *w != k) {
-                            harness_error = true;
-                        }
+                    if code == Some(3) {
+                        hard_exits += 1;
+                    }
+                    if restarts > 40 || (code != Some(3) && aborted.iter().filter(|(w, _, _)| *w == k).count() > 12) {
+                        // this worker keeps hitting condemned runs (deadlock, livelock: exit 3 with
+                        // the violation already written) or keeps dying (abort: attributed below):
+                        // enough evidence, stop restarting it. Neither is a harness error.
+                        gave_up += 1;
                         continue;
                     }
                     match cur {
@@ -576,6 +580,8 @@ pub fn drive_main(args: &[String]) -> i32 {
             "seed_range": [base, base + count],
             "known_findings_reported": nknown,
             "process_aborts": aborted.len(),
+            "condemned_runs": hard_exits,
+            "workers_stopped_early": gave_up,
             "components": {
                 "real": ["fastrace (span API, local stacks, span queue, global collector, flush, background loop, spsc Sender/Receiver)", "fastrace-futures", "fastrace-macro expansion", "rtrb ring buffer", "parking_lot::Mutex (uncontended)", "std thread-locals and their destructors", "OS thread exit"],
                 "simulated": ["thread scheduling (real OS threads, one runs at a time, seeded choice)", "thread::spawn/join/sleep", "simulated time"],
